@@ -56,6 +56,7 @@ func main() {
 	onlyTask := flag.Int("task", -1, "solo mode: run only this task's script (fresh process per task)")
 	flag.Parse()
 	findAztec(*repo)
+	buildParents()
 	var tr Trace
 	if *mode != "selftest" {
 		b, err := ioutil.ReadFile(*in)
